@@ -92,6 +92,9 @@ struct LoopContext {
     /// Iterator register for for-of loops (for iterator close protocol)
     /// When set, break/return/throw should call iterator.return()
     iterator_reg: Option<Register>,
+    /// True for the context of a labelled statement itself (`L: stmt`): it is a target only
+    /// for `break L` / `continue L`, never for an unlabelled break or continue.
+    label_only: bool,
 }
 
 impl Compiler {
@@ -253,7 +256,13 @@ impl Compiler {
             continue_jumps: Vec::new(),
             try_depth: self.try_depth,
             iterator_reg,
+            label_only: false,
         });
+    }
+
+    /// Index of the innermost loop/switch context an unlabelled break or continue refers to
+    fn innermost_unlabelled_target(&self) -> Option<usize> {
+        self.loop_stack.iter().rposition(|ctx| !ctx.label_only)
     }
 
     /// Set the continue target for the current loop and patch any pending continue jumps
@@ -337,9 +346,7 @@ impl Compiler {
                 ))
             })?
         } else {
-            self.loop_stack
-                .len()
-                .checked_sub(1)
+            self.innermost_unlabelled_target()
                 .ok_or_else(|| JsError::syntax_error_simple("Illegal break statement"))?
         };
 
@@ -384,9 +391,7 @@ impl Compiler {
                 ))
             })?
         } else {
-            self.loop_stack
-                .len()
-                .checked_sub(1)
+            self.innermost_unlabelled_target()
                 .ok_or_else(|| JsError::syntax_error_simple("Illegal continue statement"))?
         };
 
